@@ -155,6 +155,57 @@ def dictdoc_polymorphic(sx, p):
     return sx.And(*ok)
 
 
+LATE = [0]
+
+
+@harness('C16', params=[(pn, slot, ci) for pn in sorted(DICT_PROTS) for slot in SLOTS for ci in range(3)],
+         label=lambda p: '%s slot=%s parent=%s' % (p[0], p[1], CLASSES[p[2]].__name__),
+         functions=['spyne.model.complex._get_type_info', 'spyne.model.complex.ComplexModelBase.get_subclasses',
+                    'spyne.protocol.dictdoc.hier.HierDictDocument._doc_to_object',
+                    'spyne.protocol._base.ProtocolMixin.get_polymorphic_target'],
+         bounds={'history': 'the protocol instance has already decoded and encoded a document of the declared type; then a new '
+                            'class is derived from Base, Child or GrandChild and an instance of it travels in a slot declared '
+                            'as Base (plain, customized, array); field values symbolic'})
+def late_subclass(sx, p):
+    """a class defined after the protocol was first used is a subclass like any other: it is written under its own
+    name with all its fields and the receiver rebuilds it"""
+    pname, slot, ci = p
+    app, ctx = dict_app(pname, True)
+    warm, _ = mk_inst(sx, GrandChild, 'w')
+    d0 = app.out_protocol._object_to_doc(Container, Container(**{slot: [warm] if slot == 'many' else warm}))
+    app.in_protocol._doc_to_object(ctx, Container, d0, None)
+    LATE[0] += 1
+    name = 'Late%d' % LATE[0]
+    parent = CLASSES[ci]
+    Late = type(name, (parent,), {'__namespace__': 'tns', 'z': Integer})
+    inst, vals = mk_inst(sx, parent, 'v')
+    z = sx.int('v_z', 0, 9)
+    vals = dict(vals, z=z)
+    inst = Late(**vals)
+    doc = app.out_protocol._object_to_doc(Container, Container(**{slot: [inst] if slot == 'many' else inst}))
+    body = _unwrap(pname, doc, 'Container')
+    if body is None or _k(pname, slot) not in body:
+        return False
+    node = body[_k(pname, slot)]
+    if slot == 'many':
+        if not isinstance(node, list) or len(node) != 1:
+            return False
+        node = node[0]
+    inner = _unwrap(pname, node, name)
+    if inner is None or list(inner.keys()) != [_k(pname, f) for f in FIELDS[parent] + ['z']]:
+        return False
+    back = app.in_protocol._doc_to_object(ctx, Container, doc, None)
+    got = getattr(back, slot)
+    if slot == 'many':
+        if not isinstance(got, list) or len(got) != 1:
+            return False
+        got = got[0]
+    ok = [type(got) is Late]
+    for f in FIELDS[parent] + ['z']:
+        ok.append(sx.eq(getattr(got, f, None), vals[f]))
+    return sx.And(*ok)
+
+
 # ---------------------------------------------------------------- XML family: type marker resolution
 XAPPS = {}
 
@@ -250,6 +301,72 @@ def xml_wire_polymorphic(sx, p):
         pfx, nm = xt.split(':', 1)
         ok.append(el.nsmap.get(pfx) == 'tns')        # resolves in the transmitted document
         ok.append(nm == cls.__name__)
+    return sx.And(*ok)
+
+
+# ---------------------------------------------------------------- bare body style: the body entry is the polymorphic value
+class BareSvc(Service):
+    @rpc(Base, _returns=Base, _body_style='bare')
+    def echo_bare(ctx, b):
+        RET['got'] = b
+        return b
+
+
+BAPPS = {}
+
+
+@harness('C16', params=[(pn, ci) for pn in ('Soap11', 'Soap12', 'XmlDocument') for ci in range(3)],
+         label=lambda p: '%s runtime=%s' % (p[0], CLASSES[p[1]].__name__),
+         functions=['spyne.protocol.soap.soap11.Soap11.deserialize', 'spyne.protocol.xml.XmlDocument.deserialize',
+                    'spyne.protocol.xml.XmlDocument.from_element'],
+         bounds={'request': 'a bare-style method declared with Base; the body entry itself carries the xsi:type of Base, Child or '
+                            'GrandChild and that class\'s fields (symbolic leaf texts)'})
+def bare_body_entry_type(sx, p):
+    """bare style: the type marker on the body entry itself is honoured - the function receives the subclass with
+    every field"""
+    pname, ci = p
+    if pname not in BAPPS:
+        P = {'XmlDocument': XmlDocument, 'Soap11': Soap11, 'Soap12': Soap12}[pname]
+        app = Application([BareSvc], 'tns', in_protocol=P(polymorphic=True), out_protocol=P(polymorphic=True))
+        BAPPS[pname] = (app, ServerBase(app))
+    app, server = BAPPS[pname]
+    prot = app.in_protocol
+    cls = CLASSES[ci]
+    marker = cls.get_type_name_ns(app.interface)
+    nsmap = dict(app.interface.nsmap)
+    vals, kids = {}, []
+    for f in FIELDS[cls]:
+        vals[f] = sx.digits('v_' + f, 1) if f in ('a', 'b') else sx.text('v_' + f, 1, alphabet='xyz')
+        kids.append(mk_element(sx, '{tns}' + f, text=vals[f], nsmap=nsmap))
+    el = mk_element(sx, '{tns}echo_bare', attrib={'{%s}type' % XSI_NS: marker}, children=kids, nsmap=nsmap)
+    RET.clear()
+    if sx.symbolic:
+        ctx = MethodContext(server, MethodContext.SERVER)
+        ctx.in_document = el
+        ctx.in_body_doc = el
+        ctx.in_header_doc = None
+        ctx.method_request_string = el.tag
+        ctx, = prot.generate_method_contexts(ctx)
+        prot.deserialize(ctx, prot.REQUEST)
+        got = ctx.in_object         # bare: the message object is the argument
+    else:
+        from lxml import etree
+        body = etree.tostring(el)
+        if pname != 'XmlDocument':
+            env = 'http://schemas.xmlsoap.org/soap/envelope/' if pname == 'Soap11' else 'http://www.w3.org/2003/05/soap-envelope'
+            body = ('<e:Envelope xmlns:e="%s"><e:Body>' % env).encode() + body + b'</e:Body></e:Envelope>'
+        ctx = MethodContext(server, MethodContext.SERVER)
+        ctx.in_string = [body]
+        ctx, = server.generate_contexts(ctx)
+        server.get_in_object(ctx)
+        if ctx.in_error is not None:
+            return False
+        server.get_out_object(ctx)
+        got = RET.get('got')
+    ok = [type(got) is cls]
+    for f in FIELDS[cls]:
+        want = sx.digits_value(vals[f]) if f in ('a', 'b') else vals[f]
+        ok.append(sx.eq(getattr(got, f, None), want))
     return sx.And(*ok)
 
 
